@@ -158,6 +158,13 @@ func (bkt *Bucket) checkHintWithData(chunkID int) (err error) {
 		return
 	}
 	hintDataSize := bkt.hints.loadHintsByChunk(chunkID)
+	if hintDataSize > size {
+		// hint splits are dumped when they fill up, possibly before their records are flushed: after a
+		// kill they describe data that never reached the file. Rebuild them from what is there.
+		logger.Errorf("hint beyond data: chunk %d, hint datasize %d, data size %d", chunkID, hintDataSize, size)
+		bkt.hints.ClearChunk(chunkID)
+		hintDataSize = 0
+	}
 	if hintDataSize < size {
 		err = bkt.buildHintFromData(chunkID, hintDataSize)
 	}
